@@ -3,10 +3,10 @@ import os, re, subprocess
 import common
 
 LEAN_MODULES = ['OpusProps.C01']
-GEN = []
+GEN = ['CeltIdxConsts']
 SOURCES = ['src/opus_decoder.c', 'src/opus.c', 'src/opus_multistream_decoder.c', 'src/opus_projection_decoder.c',
            'src/opus_private.h', 'include/opus.h', 'celt/celt_decoder.c', 'celt/entdec.c', 'celt/stack_alloc.h',
-           'silk/dec_API.c', 'silk/control.h']
+           'silk/dec_API.c', 'silk/control.h', 'celt/celt.c', 'celt/celt.h']
 REQUIRED_THEOREMS = [
     'OpusProps.C01.DecInv_init', 'OpusProps.C01.DecInv_step', 'OpusProps.C01.decodeNative_history',
     'OpusProps.C01.decodeNative_ret', 'OpusProps.C01.decodeNative_ret_pure', 'OpusProps.C01.decodeNative_oracle_args',
@@ -15,6 +15,8 @@ REQUIRED_THEOREMS = [
     'OpusProps.C01.plc_chunk_recursion_depth', 'OpusProps.C01.msDecode_ret', 'OpusProps.C01.msDecodeFull_ret',
     'OpusProps.C01.msDecode_writes', 'OpusProps.C01.msDecode_refines', 'OpusProps.C01.int_ranges',
     'OpusProps.C01.nativeRet_depends_on_parse', 'OpusProps.C01.decodeNative_depends_on_parse',
+    'OpusProps.C01.celt_state_layout', 'OpusProps.C01.celt_postfilter_indices_in_bounds',
+    'OpusProps.C01.celt_decode_mem_shift_in_bounds', 'OpusProps.C01.celt_postfilter_period_invariant',
 ]
 RULE = ('random call histories on one decoder state (decode of real-encoder packets of all modes/bandwidths/durations, '
         'bit-flipped / truncated / extended / random packets, synthetic framing of every code incl. self-delimited, NULL and '
@@ -91,11 +93,17 @@ def _sizes(ctx):
     return (500, 150) if ctx.quick else (9000, 2500)
 
 
+def _idx_size(ctx):
+    return 150 if ctx.quick else 2500
+
+
 def ties(ctx):
     h = harness(ctx, 'c01_decskel', 'san')
     nr, nm = _sizes(ctx)
+    hi = harness(ctx, 'c01_celtidx', 'san')
     return parallel(common.run_tie, [('decskel-rand', [h, 'rand', str(ctx.seed), str(nr)]),
-                                     ('decskel-ms', [h, 'ms', str(ctx.seed), str(nm)])])
+                                     ('decskel-ms', [h, 'ms', str(ctx.seed), str(nm)]),
+                                     ('celtidx', [hi, 'run', str(ctx.seed), str(_idx_size(ctx))])])
 
 
 def _pred_line(inp, impl):
@@ -107,6 +115,37 @@ def _pred_line(inp, impl):
     m = re.search(r'st=([-\d,]+)', impl)
     lpd = m.group(1).split(',')[14] if m and len(m.group(1).split(',')) == 15 else '0'
     return 'decskel pred %s %s %s %s %s %s %s %s' % (t[2], t[3], t[4], t[5], t[6], t[7], ret, lpd)
+
+
+def _idx_witness(inp, impl):
+    """CELT index bridge: the implementation's own recorded / measured extents leave the channel buffer
+    decode_mem[c][0 .. DECODE_BUFFER_SIZE+overlap) (geometry from the regenerated constants)."""
+    t = inp.split(' ')
+    try:
+        gen = open(os.path.join(common.LEAN, 'OpusModel', 'Gen', 'CeltIdxConsts.lean')).read()
+        ML = int(re.search(r'def DECODE_BUFFER_SIZE : Int := (\d+)', gen).group(1)) + int(re.search(r'def overlap : Int := (\d+)', gen).group(1))
+    except (OSError, AttributeError):
+        ML = 2048 + 120
+    if len(t) >= 2 and t[1] == 'pfcalls':
+        m = re.search(r'pf=(\S*) mv=(\S*)', impl)
+        if not m:
+            return None
+        for call in filter(None, m.group(1).split(';')):
+            try:
+                xoff, T0, T1, n, ovl = [int(v) for v in call.split(':')[1].split(',')]
+            except ValueError:
+                continue
+            reach = max(T0, T1, 15) + 2
+            if xoff - reach < 0 or xoff + n > ML:
+                return 'post-filter call %s reads back %d samples / writes %d samples from offset %d of a %d-sample channel buffer' % (call, reach, n, xoff, ML)
+        for mv in filter(None, m.group(2).split(';')):
+            try:
+                src, dst, n = [int(v) for v in mv.split(':')[1].split(',')]
+            except ValueError:
+                continue
+            if src < 0 or dst < 0 or src + n > ML or dst + n > ML:
+                return 'decode_mem shift %s leaves the %d-sample channel buffer' % (mv, ML)
+    return None
 
 
 def classify(ctx, tie, mm):
@@ -125,6 +164,9 @@ def classify(ctx, tie, mm):
                 'why': 'a decode entry point returned OPUS_INTERNAL_ERROR'}
     if first == 'CONTRACT':
         return None
+    w = _idx_witness(inp, impl)
+    if w:
+        return {'suite': tie.name, 'input': inp, 'expected': mm.get('model'), 'observed': impl, 'why': w}
     pl = _pred_line(inp, impl)
     if pl:
         ans = common.model_eval([pl])[0]
@@ -146,7 +188,9 @@ def search(ctx):
     """The C01 predicate evaluated on the implementation (no model): return-value range, documented errors, canaries
     (plain build) / ASan+UBSan (san build), finiteness of every produced sample, announced duration and
     OPUS_GET_LAST_PACKET_DURATION, exact concealment durations, 20 s watchdog per call; single-stream, multistream and
-    projection decoders with random layouts."""
+    projection decoders with random layouts.  CELT interior: bare CELT decoders driven with crafted post-filter headers
+    (period extremes), random and lost frames; every recorded comb_filter / decode_mem shift stays inside its channel
+    buffer, periods stay in {0} u [15, 1024), ASan + celt_assert on."""
     nr, nm = _sizes(ctx)
     cases, wit, kinds, samples = 0, [], {}, []
     hs = {v: harness(ctx, 'c01_decskel', v) for v in ('plain', 'san')}
@@ -178,5 +222,29 @@ def search(ctx):
             wit.append({'suite': 'decskel-search-%s-%s' % (mode, variant), 'input': ' '.join(args), 'expected': 'harness completes',
                         'observed': 'exit %d: %s' % (rc, err[-600:]), 'why': 'search harness died'})
         samples.append('%s %s: %s' % (variant, ' '.join(args), (m.group(0) if m else 'no summary')))
+    # CELT interior: recorded post-filter / buffer-shift extents stay inside the channel buffer, periods stay legal
+    hidx = {v: harness(ctx, 'c01_celtidx', v) for v in ('plain', 'san')}
+
+    def idx(variant, off):
+        args = ['run', str(ctx.seed + off), str(_idx_size(ctx) * 4), 'quiet']
+        rc, out, err = _run_search(hidx[variant], args, 3000)
+        return variant, args, rc, out, err
+
+    for variant, args, rc, out, err in parallel(idx, [('plain', 3000), ('san', 4000)]):
+        m = re.search(r'# celtidx seed=\d+ decoders=\d+ cases=(\d+) witnesses=(\d+)', out)
+        if m:
+            cases += int(m.group(1))
+        for line in out.split('\n'):
+            if line.startswith('W '):
+                kind, what, inp = (line[2:].split(' | ') + ['', ''])[:3]
+                kinds[kind] = kinds.get(kind, 0) + 1
+                wit.append({'suite': 'celtidx-search-%s' % variant, 'input': inp, 'expected': 'C01 predicate holds', 'observed': what,
+                            'why': '%s (reproduce: %s %s)' % (kind, os.path.basename(hidx[variant]), ' '.join(args))})
+        if rc != 0 or not m:
+            rep = [l for l in err.split('\n') if 'ERROR: AddressSanitizer' in l or 'runtime error' in l or l.startswith('SUMMARY:')][:6]
+            wit.append({'suite': 'celtidx-search-%s' % variant, 'input': ' '.join(args), 'expected': 'harness completes',
+                        'observed': 'exit %d: %s' % (rc, (out[-200:] + err[-400:])), 'sanitizer_report': rep,
+                        'why': 'CELT decoder run ended abnormally (sanitizer / assertion)'})
+        samples.append('celtidx %s %s: %s' % (variant, ' '.join(args), (m.group(0) if m else 'no summary')))
     return {'cases': cases, 'distinct': len(kinds), 'oracle': search.__doc__, 'samples': samples, 'witnesses': wit[:20],
             'witness_kinds': kinds}
